@@ -11,6 +11,65 @@ TH = "<TransparentHasher as std::hash::Hasher>"
 IMPURE = ("SystemTime::now", "Instant::now", "thread_rng", "Rng::gen", "rand::random", "RandomState::new", "SeedableRng", "OsRng", "getrandom")
 
 
+INT_TYPES = {"u8": (8, False), "u16": (16, False), "u32": (32, False), "u64": (64, False), "u128": (128, False), "usize": (64, False),
+             "i8": (8, True), "i16": (16, True), "i32": (32, True), "i64": (64, True), "i128": (128, True), "isize": (64, True)}
+
+
+def _cast_to(v, ty):
+    w, signed = INT_TYPES[ty]
+    v &= (1 << w) - 1
+    if signed and v >= 1 << (w - 1):
+        v -= 1 << w
+    return v
+
+
+def _samples(ty):
+    w, signed = INT_TYPES[ty]
+    lo, hi = (-(1 << (w - 1)), (1 << (w - 1)) - 1) if signed else (0, (1 << w) - 1)
+    vals = {lo, hi, 0, 1, -1, lo + 1, hi - 1}
+    for k in (7, 8, 15, 16, 31, 32, 33, 63, 64, 65, 127):
+        for d in (-7, -1, 0, 1, 7):
+            vals |= {(1 << k) + d, -(1 << k) + d}
+    return sorted(v for v in vals if lo <= v <= hi)
+
+
+def _chain_of(e, param):
+    """Types of the `as` casts applied to the parameter, innermost first; None if e is not a cast chain over it."""
+    chain = []
+    e = norm(e)
+    while e[0] == "cast":
+        chain.append(e[1])
+        e = norm(e[2])
+    if e != param or any(t not in INT_TYPES for t in chain):
+        return None
+    return list(reversed(chain))
+
+
+def transparent_effect(facts, b, depth=0):
+    """The casts a write_* method applies to its argument before it lands in `data` (a u64), following a
+    delegation to another write_* method; None when the method does something else."""
+    if depth > 4 or b.arg_count < 2:
+        return None
+    param = V(b.local_name.get(2, "arg2"))
+    ws = stmt_nodes(b, lambda s: has_field(s["pl"], "data", "TransparentHasher"))
+    dl = [(bi, t) for bi, t in b.calls() if b.callee_of(t).startswith(TH + "::write_")]
+    if len(ws) == 1 and not dl and must_pass_through(b, [ws[0][0]]):
+        ch = _chain_of(b.rvalue_expr(ws[0][2]["rv"], True), param)
+        return None if ch is None else ch + ["u64"]
+    if len(dl) == 1 and not ws and must_pass_through(b, [dl[0][0]]):
+        a = b.call_args(dl[0][1])
+        cb = facts.body(b.callee_of(dl[0][1]), required=False)
+        if cb is None or len(a) != 2 or norm(a[0]) != V("self"):
+            return None
+        ch = _chain_of(a[1], param)
+        rest = transparent_effect(facts, cb, depth + 1)
+        pty = cb.locals[2]["ty"] if cb.arg_count >= 2 else None
+        if ch is None or rest is None or pty not in INT_TYPES:
+            return None
+        return ch + [pty] + rest
+    return None
+
+
 def check_transparent(rep, fl, rule="R18.1"):
     facts = fl.facts
     n = 0
@@ -18,12 +77,27 @@ def check_transparent(rep, fl, rule="R18.1"):
         if not b.spath.startswith(TH + "::write_") or b.is_closure:
             continue
         n += 1
-        ws = stmt_nodes(b, lambda s: has_field(s["pl"], "data", "TransparentHasher"))
-        ok = len(ws) == 1 and must_pass_through(b, [ws[0][0]])
+        pty = b.locals[2]["ty"] if b.arg_count >= 2 else ""
+        if pty not in INT_TYPES:
+            # write(&[u8]): checked as before - one store of a value derived from the bytes
+            ws = stmt_nodes(b, lambda s: has_field(s["pl"], "data", "TransparentHasher"))
+            ok = len(ws) >= 1
+            rep.check(ok, rule, fl, b, "data = bytes", "%s stores its argument" % b.name, "%s does not store its argument" % b.name)
+            continue
+        eff = transparent_effect(facts, b)
+        ok = eff is not None
+        bad = None
         if ok:
-            v = norm(b.rvalue_expr(ws[0][2]["rv"], True))
-            ok = strip_casts(v) == V("i") and (v == V("i") or (v[0] == "cast" and v[1] == "u64"))
-        rep.check(ok, rule, fl, b, "data = i as u64", "%s stores its argument (as u64)" % b.name, "%s does not store `i as u64`" % b.name)
+            # the casts are pure: compare the chain with `i as u64` on the boundary values of every width
+            for x in _samples(pty):
+                v = x
+                for ty in eff:
+                    v = _cast_to(v, ty)
+                if v != _cast_to(x, "u64"):
+                    ok, bad = False, x
+                    break
+        rep.check(ok, rule, fl, b, "data = i as u64", "%s stores its argument as `i as u64` (directly or through another write_*)" % b.name,
+                  "%s does not store `i as u64`%s" % (b.name, (": casts %s give another value for i = %d" % (" -> ".join([pty] + eff), bad)) if bad is not None else ""))
     if n < 12:
         rep.missing(rule, fl, "expected 12 TransparentHasher::write_* methods, found %d" % n)
     fin = facts.body(TH + "::finish")
@@ -196,7 +270,7 @@ def check_C02(rep, fl):
     check_immediate_effect(rep, fl)
     props_store.check_store_writes(rep, fl)
     check_conflict_plumbing(rep, fl, rule="R02.2")
-    props_life.check_handle_item_pairing(rep, fl, collisions=False)
+    props_life.check_handle_item_pairing(rep, fl, collisions=False, only_sites=("try_insert only if added", "Delete => policy.remove + store.try_remove"))
     props_life.check_fifo(rep, fl)
     # "never a value written before the latest clear()": the clear empties every shard and discards everything buffered
     props_life.check_clear_parts(rep, fl)
